@@ -172,6 +172,58 @@ def native_search(live: Live, lemma_id: str, fname: str) -> Tuple[int, List[Dict
     return n, bad
 
 
+def obj_env(prefix: str, o, env: Dict[str, Any]):
+    n = type(o).__name__
+    env[f"{prefix}.oid"] = id(o) % 1000003
+    if n == "Position":
+        env[f"{prefix}.oid.line.i"] = o.line
+        env[f"{prefix}.oid.character.i"] = o.character
+    elif n == "Range":
+        obj_env(f"{prefix}.oid.start", o.start, env)
+        obj_env(f"{prefix}.oid.end", o.end, env)
+    elif n == "Location":
+        env[f"{prefix}.oid.uri.s"] = o.uri
+        obj_env(f"{prefix}.oid.range", o.range, env)
+
+
+def lemma_differential(run: Run, live: Live, world, lemma_id: str, fname: str, contract, rep) -> int:
+    """Encoder-vs-CPython: the outcome the symbolic paths predict for concrete operands == the outcome of running the lemma program."""
+    from lib import scalardiff
+
+    cname, what = lemma_id.split(":", 1)
+    if what == "repr":
+        return 0  # str(int) is uninterpreted in the encoding
+    ns = native_ns(live)
+    objs = grid(live, cname)
+    objs = objs[:: max(1, len(objs) // 12)]
+    if what in ("==", "!=", "<", "<=", ">", ">="):
+        cases = [[a, b] for a in objs for b in objs]
+    else:
+        cases = [[a, x] for a in objs[:4] for x in unrelated_grid(live, cname)]
+    class_ids = {c: int(world.class_id(c)) for c in cp.FIELDS}
+    n = 0
+    for args in cases:
+        env: Dict[str, Any] = {}
+        obj_env("a", args[0], env)
+        second = contract.params[1][0]
+        if second == "b":
+            obj_env("b", args[1], env)
+        else:
+            x = args[1]
+            if isinstance(x, (tuple, list, dict)):
+                continue  # containers are not among the modelled alternatives of the unrelated operand
+            scalardiff.dyn_env("x", x, env, class_ids)
+            if type(x).__name__ in cp.FIELDS:
+                obj_env("x", x, env)
+        preds = {p[:2] for p in scalardiff.predicted(rep.paths_full, env) if p[0] != "unknown"}
+        nat = run_native(ns, fname, args)
+        n += 1
+        if len(preds) != 1 or next(iter(preds)) != tuple(nat[:2]):
+            run.crash(f"encoder disagrees with CPython for lemma {lemma_id} on {[repr(a) for a in args]}: predicted {sorted(map(str, preds))}, real {nat}")
+            break
+    return n
+
+
 def main(argv: List[str]) -> int:
     run = Run("C20", "proof", argv)
     live = Live()
@@ -182,6 +234,7 @@ def main(argv: List[str]) -> int:
     lem_fns = cp.lemma_functions(world)
     bounded = 0
     n_lemmas = 0
+    diff_n = 0
 
     def with_range_pre(c: Contract) -> Contract:
         # type invariant of inputs (is_valid()): every int field is a uinteger
@@ -248,7 +301,9 @@ def main(argv: List[str]) -> int:
             for b in bad[:1]:
                 run.violation(f"C20:{lemma_id}", f"{lemma_id}: {fname}({', '.join(b['args'])}) gives {b['observed'][1]}, statement requires {b['expected'][1]}", {"input": b, "bounded": True, "note": f"method left the verified subset: {msg}"}, True)
 
-        verify(run, stats, world, interp, fi, contract, label, on_fail, on_unsupported)
+        rep = verify(run, stats, world, interp, fi, contract, label, on_fail, on_unsupported)
+        if rep is not None and not rep.unsupported and rep.paths_full:
+            diff_n += lemma_differential(run, live, world, lemma_id, fname, contract, rep)
 
     # trichotomy is a consequence of the six operator lemmas (pure arithmetic); state it as its own SMT lemma for the record
     # exactly one of lt/eq/gt over integer pairs
@@ -292,6 +347,7 @@ def main(argv: List[str]) -> int:
             "lemmas": n_lemmas,
             "methods_verified": info["methods"],
             "bounded_native_cases": bounded,
+            "encoder_vs_cpython_inputs": diff_n,
             "samples": stats.samples[:8],
             "notes": run.notes,
         }
